@@ -4,7 +4,7 @@ import ExprModel.Proofs.ParserMono
 import ExprModel.Proofs.ParserFuel
 import ExprModel.Proofs.ParserCanonAll2
 import ExprModel.Proofs.ParserErase5
-import ExprModel.Proofs.ParseLayout2
+import ExprModel.Proofs.ParseLayout5
 import ExprModel.Syntax.ParserNum
 import ExprModel.Props.C12
 /-
@@ -250,22 +250,38 @@ theorem whitespace_invariance {cfg : Cfg} {sh : NumShow} (hs : Setting cfg sh) (
   rw [C12.tables_pinned]
   exact lex_parse_text cfg sh hs.hyp t hc pc cc hcc gaps trail hlen hprint hsep
 
-/-- What is left of the text-level statement: (1) float literals (their spelling `showFloat` is a parameter of
-    the printer; C12's `float_lexes` covers the lexer side for well-formed decimal/exponent spellings alone in
-    the source, not yet followed by other text); (2) the *syntactic* reference rule of the harness
-    (`needSpace a b`: a blank is needed between two neighbouring spellings) as a sufficient condition for the
-    semantic condition `NoFuse` used above.  Stated here for (2): if every gap is non-empty wherever the
-    spellings of the two neighbours would fuse, the layout does not fuse. -/
-def layout_rule_goal : Prop :=
-  ∀ (cc : Lex.CharClass), cc.AsciiExact → (∀ x, cc.isSpace x = true → cc.isAlphaNumeric x = false) →
-    ∀ (ts : List Token) (gaps : List (List Char)) (trail : List Char), ts.length = gaps.length →
-      (∀ x ∈ ts, Printable cc x) → (∀ g ∈ gaps, ∀ c ∈ g, cc.isSpace c = true) → (∀ c ∈ trail, cc.isSpace c = true) →
-      (∀ i (hi : i + 1 < ts.length), gaps[i+1]! = [] →
-        tokOk cc ts[i] (tokRaw ts[i+1] ++ [' '])) →
-      (∀ i (hi : i < ts.length), ts[i].value = "not in" → ts[i].kind = .operator →
-        ((gaps ++ [trail])[i+1]!).head? = some ' ' ∨ (i + 1 = ts.length ∧ trail = [])) →
-      (∀ i (hi : i + 1 < ts.length), ts[i].value = "not" → ts[i].kind = .operator → tokRaw ts[i+1] ≠ "in".toList) →
-      NoFuse cc ts gaps trail
+/-- **The syntactic layout rule** (the harness's `needSpace`, as a theorem): it is enough to look at each pair of
+    neighbouring tokens.  `SepOK`: every gap is white space; where the gap between two tokens is EMPTY the
+    spelling of the second must not continue the first (`tokOk` of the first on the spelling of the second:
+    identifier/keyword/number before an alphanumeric rune, number before `.`, `?` before `.`, `?.` before
+    `?`/`.`, `.` before `.`/digit, one of `< > ! *` before one of `& | = *`); `not in` is followed by U+0020 (or
+    ends the text); `not` is not directly followed by the token `in`.  Any non-empty gap separates (for a
+    classification in which no white space is alphanumeric, as in Go's `unicode` tables). -/
+theorem layout_rule (cc : Lex.CharClass) (hcc : cc.AsciiExact) (hsw : SpaceNotWord cc)
+    (ts : List Token) (gaps : List (List Char)) (trail : List Char) (hlen : ts.length = gaps.length)
+    (hprint : ∀ x ∈ ts, Printable cc x) (hsep : SepOK cc ts gaps trail) : NoFuse cc ts gaps trail :=
+  noFuse_of_sepOK hcc hsw ts gaps trail hlen hprint hsep
+
+/-- `whitespace_invariance` with the syntactic rule -/
+theorem whitespace_invariance_rule {cfg : Cfg} {sh : NumShow} (hs : Setting cfg sh) (t : Node)
+    (hc : canon cfg 0 t = true) (pc : ParenChoice) (cc : Lex.CharClass) (hcc : cc.AsciiExact)
+    (hsw : SpaceNotWord cc) (gaps : List (List Char)) (trail : List Char)
+    (hlen : (pr cfg sh pc [] 0 (eofAt {}) t).length = gaps.length)
+    (hprint : ∀ x ∈ pr cfg sh pc [] 0 (eofAt {}) t, Printable cc x)
+    (hsep : SepOK cc (pr cfg sh pc [] 0 (eofAt {}) t) gaps trail) :
+    ∃ toks t', Lex.lex cc Gen.lexTables
+        (String.ofList (Lex.renderItems (layoutItems (pr cfg sh pc [] 0 (eofAt {}) t) gaps) trail)) = .ok toks ∧
+      noLocs toks = noLocs (printEof cfg sh pc {} t) ∧
+      parse cfg toks = .ok t' ∧ t'.eraseLoc = t.eraseLoc :=
+  whitespace_invariance hs t hc pc cc hcc gaps trail hlen hprint (layout_rule cc hcc hsw _ gaps trail hlen hprint hsep)
+
+/-- What is left of the text-level statement: float literals.  Their spelling is a parameter of the printer
+    (`showFloat`), so `Printable` excludes them; what is needed is that a well-formed decimal/exponent spelling
+    (C12's `FloatParts`, lexed there alone in the source: `float_lexes`) is read back whatever follows it that is
+    not alphanumeric and not `.` — the analogue of `Lex.spells_decimal`. -/
+def float_spelling_goal : Prop :=
+  ∀ (cc : Lex.CharClass), cc.AsciiExact → ∀ (p : Lex.FloatParts), p.WF →
+    Lex.Spells cc .number (String.ofList p.text) p.text (Lex.IntFollow cc)
 
 /-! ### Non-vacuity and the witness of the one deviation found -/
 
